@@ -550,3 +550,44 @@ def trace_signature(c, verdict):
 
 def fault_signature(prefix, f):
     return "%s:%s" % (prefix, f.signature())
+
+
+# ------------------------------------------------------------------ grouped harness execution (fault-heavy explorations)
+def run_grouped(binary, lines, group_of, procs=4, batch=1500, max_same=25):
+    """Run harness lines in batches, several harness processes at a time. Lines are grouped by
+    group_of(line); once one group has produced max_same faults with the same signature, the rest of
+    that group is skipped (and counted) - thousands of repetitions of one crash add nothing and each
+    costs a sanitizer process restart. Returns (results, faults, leaky_ids, skipped_count)."""
+    groups = {}
+    for ln in lines:
+        groups.setdefault(group_of(ln), []).append(ln)
+    results, faults, leaky = {}, [], []
+    skipped = 0
+    work = []          # (group, batch lines)
+    for g, ls in groups.items():
+        for i in range(0, len(ls), batch):
+            work.append((g, ls[i:i + batch]))
+    sigcount = {}
+    dead = set()
+
+    def one(item):
+        g, ls = item
+        if g in dead:
+            return g, ls, None
+        return g, ls, common.run_harness_leaks(binary, ls, leak_every=512, per_case_timeout=30.0)
+
+    with concurrent.futures.ThreadPoolExecutor(max_workers=procs) as ex:
+        for g, ls, out in ex.map(one, work):
+            if out is None:
+                skipped += len(ls)
+                continue
+            r, f, lk = out
+            results.update(r)
+            faults.extend(f)
+            leaky.extend(lk)
+            for x in f:
+                k = (g, x.signature())
+                sigcount[k] = sigcount.get(k, 0) + 1
+                if sigcount[k] >= max_same:
+                    dead.add(g)
+    return results, faults, leaky, skipped
